@@ -1,193 +1,77 @@
-(* Proofs about model/RxWake.v: a parked reader is woken as soon as its watermark is buffered, the
-   flow-control watermark is reached, or FIN / reset arrives. *)
+(* Proofs about model/RxWake.v (with out-of-order delivery): the wake rules of the receive stream,
+   step by step.  The history-level invariant proved for the in-order model has not been re-proved
+   for this extended model. *)
 From SQ Require Import lib.Base model.RxWake.
 Local Open Scope N_scope.
 
 Definition reach (w : N) (ops : list rop) : rx := fold_left rx_step ops (rx_init w).
 
-Lemma half_le : forall w, w / 2 <= w.
-Proof. intros. apply N.div_le_upper_bound; lia. Qed.
+Lemma complete_wake : forall s, complete (wake s) = complete s.
+Proof. intros s. unfold wake. destruct (waiter s); reflexivity. Qed.
 
-(* structural invariant *)
-Definition sinv (s : rx) : Prop :=
-  1 <= rw s /\ cons s <= sent s /\ sent s <= cons s + rw s /\
-  (ended s = 0 \/ ended s = 1 \/ ended s = 2) /\
-  (rst s = 0 \/ rst s = 1 \/ rst s = 2) /\
-  (rst s = 2 <-> ended s = 2) /\
-  (rst s = 1 -> ended s = 1 /\ cons s = sent s) /\
-  (ended s = 1 -> rst s = 0 -> cons s < sent s).
+Lemma waiter_wake : forall s, waiter (wake s) = None.
+Proof. intros s. unfold wake. destruct (waiter s) eqn:E; [reflexivity|exact E]. Qed.
 
-(* a stored waiter means: Receiving, not reset, and the buffer is below the wake threshold *)
-Definition winv (s : rx) : Prop :=
-  forall L, waiter s = Some L ->
-    rst s = 0 /\ ended s <> 2 /\ blen s < N.max 1 (N.min L (fc_watermark s)).
-
-Ltac bool_hyps :=
-  repeat match goal with
-  | H : (_ && _) = true |- _ => apply andb_true_iff in H; destruct H
-  | H : (_ || _) = false |- _ => apply orb_false_iff in H; destruct H
-  | H : (_ =? _) = true |- _ => apply N.eqb_eq in H
-  | H : (_ =? _) = false |- _ => apply N.eqb_neq in H
-  | H : (_ <? _) = true |- _ => apply N.ltb_lt in H
-  | H : (_ <? _) = false |- _ => apply N.ltb_ge in H
-  | H : (_ <=? _) = true |- _ => apply N.leb_le in H
-  | H : (_ <=? _) = false |- _ => apply N.leb_gt in H
-  | H : negb _ = true |- _ => apply negb_true_iff in H
-  | H : negb _ = false |- _ => apply negb_false_iff in H
-  end.
-
-Lemma inv_init : forall w, 1 <= w -> sinv (rx_init w) /\ winv (rx_init w).
+(* the shape of an effective frame step: a candidate state, woken iff crossed or complete *)
+Lemma frame_shape : forall (b : bool) (s1 s : rx),
+  complete s = false ->
+  complete (if b then (if crossed s1 || complete s1 then wake s1 else s1) else s) = true ->
+  waiter (if b then (if crossed s1 || complete s1 then wake s1 else s1) else s) = None.
 Proof.
-  intros w H. split.
-  - unfold sinv; cbn. repeat split; auto; try lia; try discriminate; intros; try lia; discriminate.
-  - intros L HL. discriminate.
+  intros b s1 s H0 H1. destruct b; [|congruence].
+  destruct (crossed s1 || complete s1) eqn:E.
+  - apply waiter_wake.
+  - apply orb_false_iff in E. destruct E as [_ E]. congruence.
 Qed.
 
-Lemma inv_step : forall s o, sinv s -> winv s -> sinv (rx_step s o) /\ winv (rx_step s o).
+(* whichever frame completes the stream (the FIN frame, or the gap filler arriving after the FIN) wakes
+   the reader, however large its low watermark *)
+Theorem reader_woken_when_complete : forall s n fin,
+  complete s = false -> complete (rx_data s n fin) = true -> waiter (rx_data s n fin) = None.
+Proof. intros s n fin. unfold rx_data. apply frame_shape. Qed.
+
+Theorem reader_woken_when_complete_ooo : forall s g n fin,
+  complete s = false -> complete (rx_ooo s g n fin) = true -> waiter (rx_ooo s g n fin) = None.
+Proof. intros s g n fin. unfold rx_ooo. apply frame_shape. Qed.
+
+(* a reset wakes the reader at once *)
+Theorem reader_woken_by_reset : forall s, ended s = 0 -> waiter (rx_reset s) = None.
+Proof. intros s E. unfold rx_reset. rewrite E. change (0 =? 0) with true. cbn iota. apply waiter_wake. Qed.
+
+Lemma threshold_shape : forall (b : bool) (s1 s : rx) L,
+  waiter s1 = Some L ->
+  (if b then (if crossed s1 || complete s1 then wake s1 else s1) else s) <> s ->
+  let s' := (if b then (if crossed s1 || complete s1 then wake s1 else s1) else s) in
+  1 <= blen s' -> N.min L (fc_watermark s') <= blen s' -> waiter s' = None.
 Proof.
-  intros [w sn cn en rs wt wk] o S W. unfold sinv, winv, blen, fc_watermark in *. cbn in S, W.
-  destruct S as (S1 & S2 & S3 & S4 & S5 & S6 & S7 & S8).
-  pose proof (half_le w) as Hh.
-  destruct o as [n fin|l h|]; cbn [rx_step].
-  - (* data *)
-    unfold rx_data, room, fc_watermark. cbn [rw sent cons ended rst waiter wakes].
-    destruct ((en =? 0) && ((0 <? N.min n (cn + w - sn)) || fin)) eqn:E; [|cbn; tauto].
-    apply andb_true_iff in E. destruct E as [E0 E1]. apply N.eqb_eq in E0. subst en.
-    assert (R0 : rs = 0) by (destruct S5 as [?|[R|R]]; auto; [destruct (S7 R); lia|destruct S6 as [S6 _]; specialize (S6 R); lia]).
-    subst rs.
-    set (n' := N.min n (cn + w - sn)) in *.
-    assert (Hn : sn + n' <= cn + w) by lia.
-    destruct fin.
-    + (* FIN: always wakes *)
-      rewrite orb_true_r. unfold wake. cbn [rw sent cons ended rst waiter wakes andb].
-      destruct (N.eqb_spec cn (sn + n')) as [Ec|Ec];
-        destruct wt; cbn; (split; [repeat split; auto; try lia; try (intros; lia); try (intros; discriminate)
-                                  | intros L HL; try discriminate]).
-      all: try (exfalso; lia).
-      all: try (intros Hx; destruct Hx; lia).
-      all: try (destruct (W L HL) as (_ & _ & Hb); split; [reflexivity|split; [discriminate|]]; cbn; lia).
-    + rewrite orb_false_r. cbn [andb].
-      destruct wt as [l0|].
-      * destruct (W l0 eq_refl) as (_ & _ & Hb).
-        destruct ((1 <=? sn + n' - cn) && (N.min l0 (w / 2) <=? sn + n' - cn)) eqn:C.
-        -- unfold wake; cbn. split; [repeat split; auto; try lia; intros; try lia; try discriminate|intros L HL; discriminate].
-           all: try (destruct H; lia).
-        -- cbn. split; [repeat split; auto; try lia; intros; try lia; try discriminate|].
-           all: try (destruct H; lia).
-           intros L HL. inversion HL; subst. repeat split; auto; try discriminate.
-           apply andb_false_iff in C. destruct C as [C|C]; apply N.leb_gt in C; cbn; lia.
-      * cbn. split; [repeat split; auto; try lia; intros; try lia; try discriminate|intros L HL; discriminate].
-        all: try (destruct H; lia).
-  - (* read *)
-    unfold rx_read, blen, fc_watermark. cbn [rw sent cons ended rst waiter wakes].
-    destruct (N.eqb_spec rs 2) as [R2|R2]; [cbn; split; [tauto|intros L HL; discriminate]|].
-    destruct (N.eqb_spec rs 1) as [R1|R1]; [cbn; split; [tauto|intros L HL; discriminate]|].
-    assert (R0 : rs = 0) by lia. subst rs.
-    assert (E2 : en <> 2) by (intros E; apply S6 in E; lia).
-    cbn [fst].
-    set (high := N.max h 1). set (low := N.min l high).
-    set (ok := N.min (w / 2) low <=? sn - cn).
-    set (take := if ok then N.min high (sn - cn) else 0).
-    assert (Ht : take <= sn - cn) by (unfold take; destruct ok; lia).
-    set (park := negb ok || (take =? 0)).
-    set (done := (en =? 1) && (cn + take =? sn)).
-    assert (Hdp : done = true -> park = true -> False).
-    { intros Hd Hp. unfold done in Hd. apply andb_true_iff in Hd. destruct Hd as [Hd1 Hd2].
-      apply N.eqb_eq in Hd1. apply N.eqb_eq in Hd2.
-      assert (cn < sn) by (apply S8; auto).
-      unfold park in Hp. apply orb_true_iff in Hp. destruct Hp as [Hp|Hp].
-      - apply negb_true_iff in Hp. unfold take in *. rewrite Hp in *. lia.
-      - apply N.eqb_eq in Hp. lia. }
-    cbn [rw sent cons ended rst waiter wakes].
-    split.
-    + assert (Hd : done = true -> en = 1 /\ cn + take = sn).
-      { unfold done. intros Hx. apply andb_true_iff in Hx. destruct Hx as [A B].
-        apply N.eqb_eq in A. apply N.eqb_eq in B. auto. }
-      assert (Hnd : done = false -> en <> 1 \/ cn + take <> sn).
-      { unfold done. intros Hx. apply andb_false_iff in Hx. destruct Hx as [A|A]; apply N.eqb_neq in A; auto. }
-      destruct done; [destruct (Hd eq_refl)|pose proof (Hnd eq_refl)];
-        repeat split; intros; try lia.
-    + intros L HL. destruct park eqn:P.
-      * inversion HL; subst L. destruct done eqn:D; [exfalso; auto|].
-        split; [reflexivity|]. split; [exact E2|]. cbn [sent cons rw].
-        unfold park, take in *. destruct ok eqn:O; unfold ok in O.
-        -- cbn [negb orb] in P. apply N.eqb_eq in P. apply N.leb_le in O.
-           assert (sn - cn = 0) by (unfold high in P; lia). lia.
-        -- apply N.leb_gt in O. lia.
-      * destruct done eqn:D; [discriminate|].
-        destruct (W L HL) as (_ & _ & Hb). split; [reflexivity|]. split; [exact E2|].
-        cbn [sent cons rw]. lia.
-  - (* reset *)
-    unfold rx_reset. cbn [rw sent cons ended rst waiter wakes].
-    destruct (N.eqb_spec en 0) as [E|E]; [|cbn; tauto].
-    unfold wake. cbn [rw sent cons ended rst waiter wakes].
-    destruct wt; cbn; (split; [repeat split; auto; try lia; intros; try lia; try discriminate
-                              |intros L HL; discriminate]).
+  intros b s1 s L HL Hne. cbv zeta. destruct b; [|congruence].
+  destruct (crossed s1 || complete s1) eqn:E; [intros; apply waiter_wake|].
+  intros H1 H2. exfalso. apply orb_false_iff in E. destruct E as [E _].
+  unfold crossed in E. rewrite HL in E.
+  apply N.leb_le in H1. apply N.leb_le in H2. rewrite H1, H2 in E. discriminate.
 Qed.
 
-Lemma inv_reach : forall w ops, 1 <= w -> sinv (reach w ops) /\ winv (reach w ops).
-Proof.
-  intros w ops H. unfold reach. induction ops as [|o ops IH] using rev_ind.
-  - apply inv_init; auto.
-  - rewrite fold_left_app. cbn. destruct IH. apply inv_step; auto.
-Qed.
+(* "as soon as": any effective data frame after which the contiguous buffer holds at least one byte
+   and at least min(the parked reader's low watermark, the flow-control watermark) wakes the reader *)
+Theorem reader_woken_at_threshold : forall s n fin L,
+  waiter s = Some L -> rx_data s n fin <> s ->
+  let s' := rx_data s n fin in
+  1 <= blen s' -> N.min L (fc_watermark s') <= blen s' ->
+  waiter s' = None.
+Proof. intros s n fin L HL. unfold rx_data. apply threshold_shape. exact HL. Qed.
 
-Lemma rw_reach : forall w ops, rw (reach w ops) = w.
-Proof.
-  intros w ops. unfold reach. induction ops as [|o ops IH] using rev_ind; [reflexivity|].
-  rewrite fold_left_app. cbn. set (s := fold_left rx_step ops (rx_init w)) in *.
-  destruct o; cbn [rx_step].
-  - unfold rx_data. destruct (_ && _); [|exact IH]. destruct (_ || _); unfold wake; cbn; [destruct (waiter s)|]; cbn; exact IH.
-  - unfold rx_read. destruct (rst s =? 2); [exact IH|]. destruct (rst s =? 1); exact IH.
-  - unfold rx_reset. destruct (ended s =? 0); [|exact IH]. unfold wake; cbn. destruct (waiter s); exact IH.
-Qed.
-
-(* reader_woken: in every reachable state, a stored waiter (parked reader, no wake delivered yet)
-   implies: the stream is still Receiving, no reset has arrived, fewer bytes are buffered than
-   min(the reader's remaining low watermark, the flow-control watermark w/2) (at least one byte
-   always suffices when that minimum is 0) -- and therefore the flow-control window still admits
-   more data: there is no state with a parked reader and a peer blocked on the stream window. *)
-Theorem reader_woken : forall w ops L,
-  1 <= w -> waiter (reach w ops) = Some L ->
-  let s := reach w ops in
-  rst s = 0 /\ ended s <> 2 /\
-  blen s < N.max 1 (N.min L (w / 2)) /\
-  sent s < cons s + w.
-Proof.
-  intros w ops L Hw HL. cbv zeta.
-  destruct (inv_reach w ops Hw) as [S W]. destruct (W L HL) as (R & E & B).
-  unfold fc_watermark in B. rewrite rw_reach in B.
-  repeat split; auto. unfold blen in B. pose proof (half_le w).
-  destruct S as (_ & S2 & _). lia.
-Qed.
-
-(* FIN (in-order, so the stream is complete) and reset wake the reader at once *)
-Theorem reader_woken_by_fin_or_reset : forall s n,
-  ended s = 0 ->
-  waiter (rx_data s n true) = None /\ waiter (rx_reset s) = None.
-Proof.
-  intros s n E. unfold rx_data, rx_reset, wake. rewrite E. cbn [N.eqb andb].
-  change (0 =? 0) with true. cbn [andb]. rewrite !orb_true_r. cbn.
-  destruct (waiter s); cbn; auto.
-Qed.
-
-(* "as soon as": the data frame that makes the buffer reach the threshold wakes the reader *)
-Theorem reader_woken_at_threshold : forall s n L,
-  ended s = 0 -> waiter s = Some L -> 0 < N.min n (room s) ->
-  let len := sent s + N.min n (room s) - cons s in
-  1 <= len -> N.min L (fc_watermark s) <= len ->
-  waiter (rx_data s n false) = None /\ wakes (rx_data s n false) = wakes s + 1.
-Proof.
-  intros s n L E HL Hn len H1 H2. unfold rx_data. rewrite E, HL.
-  change (0 =? 0) with true. cbn [andb].
-  apply N.ltb_lt in Hn. rewrite Hn. cbn [orb].
-  apply N.leb_le in H1. apply N.leb_le in H2. fold len. rewrite H1, H2. cbn [andb orb].
-  unfold wake. cbn. auto.
-Qed.
+(* non-vacuity: parked with low watermark 20; the FIN segment [5,10) arrives first (no wake: 3 bytes
+   buffered, gap open), then the gap filler [3,5) completes the stream: woken with 10 bytes buffered *)
+Example reader_woken_by_gap_filler :
+  let s1 := reach 100 [RData 3 false; RRead 20 20; ROoo 2 5 true] in
+  let s2 := reach 100 [RData 3 false; RRead 20 20; ROoo 2 5 true; RData 2 false] in
+  waiter s1 = Some 20 /\ wakes s1 = 0 /\ complete s1 = false /\
+  waiter s2 = None /\ wakes s2 = 1 /\ complete s2 = true /\ blen s2 = 10.
+Proof. vm_compute. repeat split; reflexivity. Qed.
 
 (* The full statement "a parked reader is never left without a wake once no more data can arrive" is
-   FALSE of the faithful model (and of the implementation, same case): a request polled after the FIN
-   has been fully received, with a low watermark above what remains, is parked for good. *)
+   FALSE of the faithful model (and of the implementation, same case): a request polled after the
+   stream has been completely received, with a low watermark above what remains, is parked for good. *)
 Lemma reader_parked_on_finished_stream_refuted :
   let s := reach 100 [RData 10 true; RRead 20 20] in
   waiter s = Some 20 /\ ended s = 1 /\ blen s = 10 /\
